@@ -6,6 +6,7 @@ import (
 	"io"
 	"math/rand/v2"
 	"strconv"
+	"strings"
 	"sync"
 
 	"github.com/Query-farm/vgi-rpc-go/vgirpc"
@@ -388,14 +389,17 @@ func (c *client) observe(b arrow.RecordBatch, call *obsCall) obsBatch {
 type callSpec struct {
 	Method    string `json:"method"`
 	P         P      `json:"params"`
-	Advertise bool   `json:"advertise"`    // put segment name/size on the request
-	ReqPtr    bool   `json:"request_ptr"`  // ship the params batch through the segment
-	InPtr     bool   `json:"inputs_ptr"`   // ship exchange inputs through the segment
-	Turns     int    `json:"turns"`        // exchange: inputs to send; producer: ticks before the client stops (0 = until the server finishes)
-	InRows    int    `json:"input_rows"`   // exchange: rows per input
-	InLen     int    `json:"input_strlen"` // exchange: string length per row
-	NewSeg    int    `json:"new_segment"`  // >0: switch to a fresh segment of this size before the call
-	RawPtr    string `json:"raw_pointer"`  // negative arm: "request" = send a pointer request although nothing is attached; "input" = pointer as exchange input
+	Advertise bool   `json:"advertise"`              // put segment name/size on the request
+	ReqPtr    bool   `json:"request_ptr"`            // ship the params batch through the segment
+	InPtr     bool   `json:"inputs_ptr"`             // ship exchange inputs through the segment
+	Turns     int    `json:"turns"`                  // exchange: inputs to send; producer: ticks before the client stops (0 = until the server finishes)
+	InRows    int    `json:"input_rows"`             // exchange: rows per input
+	InLen     int    `json:"input_strlen"`           // exchange: string length per row
+	NewSeg    int    `json:"new_segment"`            // >0: switch to a fresh segment of this size before the call
+	BogusAdv  string `json:"bogus_advert,omitempty"` // domain-audit probe: hostile / stale segment advertisement on an inline request
+	BogusName string `json:"bogus_name,omitempty"`   // an existing segment's name (for the size-* kinds)
+	BogusSize int    `json:"bogus_size,omitempty"`   // that segment's real size
+	RawPtr    string `json:"raw_pointer"`            // negative arm: "request" = send a pointer request although nothing is attached; "input" = pointer as exchange input
 }
 
 func paramBatch(p P) arrow.RecordBatch {
@@ -453,6 +457,11 @@ func (c *client) buildRequest(cs callSpec) []byte {
 	if cs.Advertise && c.seg != nil {
 		keys = append(keys, vgirpc.MetaShmSegmentName, vgirpc.MetaShmSegmentSize)
 		vals = append(vals, c.seg.name, strconv.Itoa(c.seg.size))
+	}
+	if cs.BogusAdv != "" {
+		k, v := bogusAdvert(cs)
+		keys = append(keys, k...)
+		vals = append(vals, v...)
 	}
 	pb := paramBatch(cs.P)
 	defer pb.Release()
@@ -615,3 +624,49 @@ type pipeBuffer struct{ b []byte }
 
 func (p *pipeBuffer) Write(d []byte) (int, error) { p.b = append(p.b, d...); return len(d), nil }
 func (p *pipeBuffer) take() []byte                { d := p.b; p.b = nil; return d }
+
+// bogusAdvert returns the advertisement keys of the domain-audit probe.
+func bogusAdvert(cs callSpec) (keys, vals []string) {
+	n, z := vgirpc.MetaShmSegmentName, vgirpc.MetaShmSegmentSize
+	real, size := cs.BogusName, strconv.Itoa(cs.BogusSize)
+	switch cs.BogusAdv {
+	case "missing-name":
+		return []string{n, z}, []string{"/verif_wI_no_such_segment", "200000"}
+	case "empty-name":
+		return []string{n, z}, []string{"", "200000"}
+	case "slash-name":
+		return []string{n, z}, []string{"/a/b/../c", "200000"}
+	case "long-name":
+		return []string{n, z}, []string{"/" + strings.Repeat("n", 400), "200000"}
+	case "nul-name":
+		return []string{n, z}, []string{"/ab\x00cd", "200000"}
+	case "size-text":
+		return []string{n, z}, []string{real, "abc"}
+	case "size-negative":
+		return []string{n, z}, []string{real, "-200000"}
+	case "size-zero":
+		return []string{n, z}, []string{real, "0"}
+	case "size-header":
+		return []string{n, z}, []string{real, "65536"}
+	case "size-header-plus-1":
+		return []string{n, z}, []string{real, "65537"}
+	case "size-huge":
+		return []string{n, z}, []string{real, "1099511627776"}
+	case "size-2^63":
+		return []string{n, z}, []string{real, "9223372036854775808"}
+	case "size-too-big":
+		return []string{n, z}, []string{real, strconv.Itoa(cs.BogusSize + 4096)}
+	case "size-too-small":
+		return []string{n, z}, []string{real, strconv.Itoa(cs.BogusSize - 1)}
+	case "only-name":
+		return []string{n}, []string{real}
+	case "only-size":
+		return []string{z}, []string{size}
+	case "name-without-slash": // the documented fallback: retried with a leading slash — a VALID advertisement
+		return []string{n, z}, []string{strings.TrimPrefix(real, "/"), size}
+	}
+	panic("unknown bogus advert " + cs.BogusAdv)
+}
+
+var bogusKinds = []string{"missing-name", "empty-name", "slash-name", "long-name", "nul-name", "size-text", "size-negative", "size-zero", "size-header",
+	"size-header-plus-1", "size-huge", "size-2^63", "size-too-big", "size-too-small", "only-name", "only-size", "name-without-slash"}
